@@ -406,6 +406,15 @@ func (db *DB) get(in Object) (out Object, err error) {
 		}
 	}
 
+	// the object handed over only tells which object is wanted: anything else
+	// it holds (fields omitted from the file, map entries) must not show in
+	// the object read
+	if v := reflect.ValueOf(in); v.Kind() == reflect.Ptr && !v.IsNil() {
+		uuid := in.UUID()
+		v.Elem().Set(reflect.Zero(v.Elem().Type()))
+		in.Initialize(uuid)
+	}
+
 	path = filepath.Join(db.oDir(in), s.filename(in))
 	err = unmarshalJsonFile(path, in, s.Compress)
 	out = in
